@@ -2,13 +2,13 @@
 (* loky's reference-counting resource tracker as seen through its pipe protocol *)
 (* and the file system (C20).  Files f1, f2; folder d containing the file g.     *)
 EXTENDS Integers, Sequences, FiniteSets, TLC, Json
-CONSTANTS Clients, MaxReq
+CONSTANTS Clients, MaxReq, Use    \* Use: the names requests may mention in this configuration
 
 Files   == {"f1", "f2", "g"}          \* "g" lives inside folder "d"
-Folders == {"d"}
+Folders == {"d", "e", "h"}            \* folder "e" lives inside folder "d"; "h" is a top-level folder
 Names   == Files \cup Folders
 RType(x) == IF x \in Folders THEN "folder" ELSE "file"
-Inside(x) == IF x = "g" THEN {"d"} ELSE {}
+Inside(x) == IF x \in {"g", "e"} THEN {"d"} ELSE {}
 
 VARIABLES reg,      \* name -> count (absent = not registered)
           exists,   \* names currently on disk
@@ -23,8 +23,8 @@ Init == /\ reg = [x \in {} |-> 0] /\ exists = Names /\ open = Clients /\ alive =
 
 Count(x) == IF x \in DOMAIN reg THEN reg[x] ELSE 0
 Remove(S, why) ==
-  /\ exists' = exists \ (S \cup {y \in Files : Inside(y) \cap S # {}})
-  /\ deletedBy' = [x \in DOMAIN deletedBy \cup ((S \cup {y \in Files : Inside(y) \cap S # {}}) \cap exists) |->
+  /\ exists' = exists \ (S \cup {y \in Names : Inside(y) \cap S # {}})
+  /\ deletedBy' = [x \in DOMAIN deletedBy \cup ((S \cup {y \in Names : Inside(y) \cap S # {}}) \cap exists) |->
                      IF x \in DOMAIN deletedBy THEN deletedBy[x]
                      ELSE IF x \in S THEN why ELSE "folder"]
 Log(c, cmd, x) == /\ hist' = Append(hist, [c |-> c, cmd |-> cmd, x |-> x, ex |-> exists', cnt |-> [y \in Names |-> IF y \in DOMAIN reg' THEN reg'[y] ELSE 0]])
@@ -65,7 +65,7 @@ EOFCleanup ==           \* files first, then folders
   /\ UNCHANGED <<open, nreq>>
   /\ hist' = Append(hist, [c |-> 0, cmd |-> "EOF", x |-> "-", ex |-> exists', cnt |-> [y \in Names |-> 0]])
 
-Next == \/ \E c \in Clients : \/ \E x \in Names : Register(c, x) \/ Unregister(c, x) \/ MaybeUnlink(c, x)
+Next == \/ \E c \in Clients : \/ \E x \in Use : Register(c, x) \/ Unregister(c, x) \/ MaybeUnlink(c, x)
                               \/ Garbage(c) \/ ClientGone(c)
         \/ EOFCleanup
 Spec == Init /\ [][Next]_vars
